@@ -1,11 +1,16 @@
 #!/bin/bash
 # tools/mutant.sh <patch.diff> <prop> [quick|thorough]  -- run a check against a scratch copy of /repo with the patch applied
-set -e
-PATCH="$(readlink -f "$1")"; PROP="$2"; TIER="${3:-quick}"
+# (scratch copy = git archive of /repo HEAD; if the patch does not apply there, of $BASE (default: the commit the seeded mutants were written against))
+PATCH="$(readlink -f "$1")"; PROP="$2"; TIER="${3:-quick}"; BASE="${BASE:-7d67693}"
 D="$(mktemp -d /tmp/verif-mut-XXXXXX)"
 trap 'rm -rf "$D"' EXIT
 mkdir -p "$D/repo"
 (cd /repo && git archive HEAD iOpt) | tar -x -C "$D/repo"
-(cd "$D/repo" && git init -q . && git apply --whitespace=nowarn "$PATCH")
+if ! (cd "$D/repo" && git init -q . && git apply --whitespace=nowarn "$PATCH" 2>/dev/null); then
+  rm -rf "$D/repo"; mkdir -p "$D/repo"
+  (cd /repo && git archive "$BASE" iOpt) | tar -x -C "$D/repo"
+  (cd "$D/repo" && git init -q . && git apply --whitespace=nowarn "$PATCH") || { echo "PATCH DOES NOT APPLY to HEAD nor $BASE"; exit 9; }
+  echo "note: patch applied to base $BASE (does not apply to HEAD)"
+fi
 cd /verif
 VERIF_REPO="$D/repo" VERIF_REPLAY_DIR="${KEEP_REPLAYS:-$D/replays}" VERIF_EVIDENCE_DIR="$D/evidence" ./check "$PROP" "$TIER"
